@@ -158,6 +158,7 @@ def forward(waters, fracs, truth):
 def build_problem(case):
     waters, fracs, truth = case["w"], case["f"], case["truth"]
     sols, diags = forward(waters, fracs, truth)
+    diags = list(diags)
     if sols is None:
         return None, diags
     sols = [dict(s, totals=dict(s["totals"])) for s in sols]
@@ -303,21 +304,22 @@ def lattices(tier):
     # S: structure
     S = []
     tr = truths(2, True) if quick else truths(3, False)
-    dsets = [[]] + [[x] for x in DISTRACTORS]
+    dsets = [[]] + [[x] for x in (DISTRACTORS[:3] if quick else DISTRACTORS)]
     for w in WATER_ORDER:
         mx, triple = mixes(tier, w)
         for ws, fs in mx:
             for t in tr:
                 for ds in dsets:
                     for cons in ("none", "ok", "bad"):
-                        S.append({"w": ws, "f": fs, "truth": t, "distr": ds, "cons": cons, "opts": {"range": 1}})
-    L["S structure: waters x mixing x truth x distractor x constraints"] = S
+                        for jit in (0, 1):
+                            S.append({"w": ws, "f": fs, "truth": t, "distr": ds, "cons": cons, "opts": {"range": 1}, "jit": jit})
+    L["S structure: waters x mixing x truth x distractor x constraints x {exact, jittered analyses}"] = S
     # D: distractor pairs (thorough)
     if not quick:
         D = []
         for t in tr:
             for ds in itertools.combinations(DISTRACTORS, 2):
-                D.append({"w": ["A"], "f": [1.0], "truth": t, "distr": list(ds), "cons": "none", "opts": {"range": 1}})
+                D.append({"w": ["A"], "f": [1.0], "truth": t, "distr": list(ds), "cons": "none", "opts": {"range": 1}, "jit": 1})
         L["D distractor pairs"] = D
     # O: options x uncertainties x perturbations
     O = []
@@ -334,7 +336,7 @@ def lattices(tier):
                     for u in UNCS:
                         for p in perts:
                             O.append({"w": ws, "f": fs, "truth": t, "distr": ["Aragonite"] if len(t) == 1 else ["Anhydrite"], "cons": "ok",
-                                      "opts": o, "unc": u, "pert": list(p) if p else None})
+                                      "opts": o, "unc": u, "pert": list(p) if p else None, "jit": 1})
     L["O options x uncertainty configurations x perturbations"] = O
     # P: all perturbations x constraint modes incl. force (small truth set)
     P = []
@@ -344,7 +346,7 @@ def lattices(tier):
                 for u in ("U0", "U2") if quick else UNCS:
                     for o in ({"range": 1}, {"range": 1, "minimal": 1}):
                         P.append({"w": ["B", "C"], "f": [0.3, 0.7], "truth": t, "distr": ["Sylvite"], "cons": cons, "opts": o, "unc": u,
-                                  "pert": list(p) if p else None})
+                                  "pert": list(p) if p else None, "jit": 2})
     L["P perturbed element x constraint mode"] = P
     # M: four solutions (three end-members)
     M = []
@@ -353,14 +355,16 @@ def lattices(tier):
         for t in truths(2, False) if not quick else truths(1, True):
             for o in ({"range": 1}, {"minimal": 1}, {"range": 1, "mw": False}):
                 for u in ("U0", "U1"):
-                    M.append({"w": ws, "f": fs, "truth": t, "distr": [], "cons": "none", "opts": o, "unc": u})
+                    for jit in (0, 1):
+                        M.append({"w": ws, "f": fs, "truth": t, "distr": [], "cons": "none", "opts": o, "unc": u, "jit": jit})
     L["M four solutions"] = M
     # X: large candidate sets (9 universe phases + up to 3 distractors = 12 candidates)
     X = []
     for t in truths(1, True) if quick else truths(2, False):
         for extra in ([], DISTRACTORS[:3]) if not quick else ([],):
             for o in ({"range": 1}, {"minimal": 1}):
-                X.append({"w": ["A"], "f": [1.0], "truth": t, "cand": UNIVERSE + extra, "cons": "none", "opts": o})
+                for jit in (0, 1):
+                    X.append({"w": ["A"], "f": [1.0], "truth": t, "cand": UNIVERSE + extra, "cons": "none", "opts": o, "jit": jit})
     L["X large candidate sets (9..12 phases)"] = X
     for k in L:
         L[k].sort(key=lambda c: (len(c["truth"]), len(c["w"]), len(c.get("distr", c.get("cand", []))), len(c.get("opts", {})), c.get("pert") is not None))
@@ -383,17 +387,11 @@ def run(tier):
     pool = core.Pool()
     dl = core.Deadline(170 if tier == "quick" else 1700)
     L = lattices(tier)
-    total_models = 0
     done = True
-    nm_hist = {}
     for name, cs in L.items():
         if not done:
             ev.bound(name, False, cases=len(cs))
             continue
-        before = ev.traces
-
-        def counting(case, _f=run_case):
-            return _f(case)
         done = core.explore_cases(cs, run_case, ev, findings, pool, chunksize=8, deadline=dl)
         ev.bound(name, done, cases=len(cs))
     ev.extra["alphabet"] = {"waters": WATERS, "groups": {g: GROUPS[g][0] for g in GROUPS}, "distractors": DISTRACTORS,
